@@ -63,6 +63,10 @@ type StreamCfg struct {
 	WriteFaults         []WriteFault `json:"write_faults,omitempty"`
 	PipeCap             int          `json:"pipe_cap,omitempty"`
 	PipeChunk           int          `json:"pipe_chunk,omitempty"`
+	// Mutated: the stream was byte-mutated after generation, so it may leave
+	// the unambiguous grammar: the reference tree is not compared, only the
+	// delivery independence, the fix-point and the read-error oracle apply.
+	Mutated bool `json:"mutated,omitempty"`
 }
 
 func bytesToSegs(b []byte) []string {
@@ -381,7 +385,7 @@ var specialTags = []string{"BAPM", "BIRT", "BURI", "DATE", "DEAT", "EVEN", "_FID
 var plainTags = []string{"HEAD", "CHAR", "TRLR", "OCCU", "GIVN", "SURN", "CONT", "CONC", "TITL", "AUTH", "FAMS", "FAMC",
 	"MARR", "OBJE", "FILE", "_CUSTOM", "_x", "ZZZ", "note", "Abc_1", "123", "0", "1", "9NAME", "_"}
 var valuePool = []string{"", "", "x", "John /Smith/", "@I1@", "@X@ trailing", "1 NAME nested", "0", "12 Jan 2001", "M", "a  b",
-	"@", "@@", "é ü", "value with @ inside", "NAME", "1", "<tag> & \"q\"", "EE13561DDB204985BFFDEEBF82A5226C", "LZDP-V9V"}
+	"@", "@@", "é ü", "value with @ inside", "100% sure", "%d %s %v", "%", "5%!x", "NAME", "1", "<tag> & \"q\"", "EE13561DDB204985BFFDEEBF82A5226C", "LZDP-V9V"}
 var pointerPool = []string{"", "", "", "I1", "F1", "S1", "x y", "../p", "1", "NAME", "é"}
 
 func genSpec(r *rand.Rand, depth, maxDepth int, budget *int) NodeSpec {
@@ -446,6 +450,14 @@ func genRoundTripCase(prop, tier string, r *rand.Rand) *Case {
 		default:
 			s = genSpec(r, 0, maxDepth, &budget)
 		}
+		if s.Tag != "FAM" && s.Tag != "SEX" && r.IntN(4) == 0 {
+			role := NodeSpec{Tag: pick(r, []string{"ROLE:husb", "ROLE:wife"})}
+			if len(s.Children) > 0 && s.Children[0].Tag != "SEX" && r.IntN(2) == 0 {
+				s.Children[0].Children = append(s.Children[0].Children, role)
+			} else {
+				s.Children = append(s.Children, role)
+			}
+		}
 		cfg.Forest = append(cfg.Forest, s)
 	}
 	cfg.Plans = genReadPlans(r, 0, 4)
@@ -471,6 +483,19 @@ func buildDoc(cfg *StreamCfg) (doc *gedcom.Document, err error) {
 	var family *gedcom.FamilyNode
 	var build func(s NodeSpec) gedcom.Node
 	build = func(s NodeSpec) gedcom.Node {
+		if s.Tag == "ROLE:husb" || s.Tag == "ROLE:wife" {
+			// the role node of the most recent family, added a second time
+			// under a later record (a family-role node after its family)
+			if family != nil {
+				if s.Tag == "ROLE:husb" && family.Husband() != nil {
+					return family.Husband()
+				}
+				if s.Tag == "ROLE:wife" && family.Wife() != nil {
+					return family.Wife()
+				}
+			}
+			return gedcom.NewNode(gedcom.TagNote, "no role node to attach", "")
+		}
 		var children []gedcom.Node
 		for _, c := range s.Children {
 			children = append(children, build(c))
@@ -684,7 +709,7 @@ func foldStreamStats(cr *CaseResult, st *streamStats) {
 // ---------------------------------------------------------------------------
 // C02: reference line grammar
 
-var refLineRe = regexp.MustCompile(`^([0-9]) +(?:@([^@]+)@ )?([A-Za-z0-9_]+)(?: (.*))?$`)
+var refLineRe = regexp.MustCompile(`^([0-9]{1,2}) +(?:@([^@]+)@ )?([A-Za-z0-9_]+)(?: (.*))?$`)
 
 // refParse is the independent model of the documented line grammar. It works
 // on the complete byte string and knows nothing about delivery.
@@ -715,7 +740,10 @@ func refParse(data []byte, ml, ii bool) (roots []*refNode, hasBOM bool, ok bool)
 			}
 			return nil, hasBOM, false
 		}
-		level := int(m[1][0] - '0')
+		level := 0
+		for _, d := range m[1] {
+			level = level*10 + int(d-'0')
+		}
 		n := &refNode{pointer: m[2], tag: m[3], value: m[4]}
 		if n.tag == "INDI" || n.tag == "FAM" {
 			n.value = "" // record lines carry no value
@@ -769,6 +797,11 @@ func genStructureCase(prop, tier string, r *rand.Rand) *Case {
 		nlines = r.IntN(80)
 	}
 	level := 0
+	maxLevel := 9
+	if r.IntN(5) == 0 {
+		maxLevel = 14 // two-digit levels
+		nlines += 12
+	}
 	famSeen := false
 	eol := func() string { return pick(r, []string{"\n", "\n", "\r\n", "\r", "\n\n", "\r\n\r\n"}) }
 	for i := 0; i < nlines; i++ {
@@ -779,7 +812,7 @@ func genStructureCase(prop, tier string, r *rand.Rand) *Case {
 		default:
 			switch r.IntN(6) {
 			case 0, 1:
-				if level < 9 {
+				if level < maxLevel {
 					level++
 				}
 			case 2:
@@ -787,7 +820,7 @@ func genStructureCase(prop, tier string, r *rand.Rand) *Case {
 			case 3:
 				level = 0
 			case 4:
-				if cfg.AllowInvalidIndents && level < 7 && r.IntN(3) == 0 {
+				if cfg.AllowInvalidIndents && level < maxLevel-2 && r.IntN(3) == 0 {
 					level += 2 // over-deep line
 				}
 			}
@@ -812,7 +845,7 @@ func genStructureCase(prop, tier string, r *rand.Rand) *Case {
 		case 1:
 			line += " "
 		default:
-			v := pick(r, []string{"value", "a @ b", "@I1@", "12", "  padded  ", "\tTabbed\t", "é\xff\xfe", "1 NAME x", "John /Smith/", "@X@ Y"})
+			v := pick(r, []string{"value", "a @ b", "@I1@", "12", "100% sure", "%s %d", "  padded  ", "\tTabbed\t", "é\xff\xfe", "1 NAME x", "John /Smith/", "@X@ Y"})
 			line += " " + v
 		}
 		b = append(b, line...)
@@ -831,6 +864,22 @@ func genStructureCase(prop, tier string, r *rand.Rand) *Case {
 		for len(b) > 0 && (b[len(b)-1] == '\n' || b[len(b)-1] == '\r') {
 			b = b[:len(b)-1]
 		}
+	}
+	if r.IntN(5) == 0 && len(b) > 0 {
+		// byte-mutated real-looking file: mostly rejected, then only the
+		// delivery independence of the verdict is judged
+		for k := 1 + r.IntN(3); k > 0 && len(b) > 0; k-- {
+			i := r.IntN(len(b))
+			switch r.IntN(3) {
+			case 0:
+				b[i] = pick(r, []byte{'\n', '\r', ' ', '0', '1', '@', 'x', 0xff})
+			case 1:
+				b = append(b[:i], b[i+1:]...)
+			default:
+				b = append(b[:i], append([]byte{pick(r, []byte{'\n', ' ', '2', '@'})}, b[i:]...)...)
+			}
+		}
+		cfg.Mutated = true
 	}
 	cfg.Segments = bytesToSegs(b)
 	cfg.Plans = genReadPlans(r, len(b), 5)
@@ -875,7 +924,9 @@ func runStructure(t *testing.T, c *Case, cr *CaseResult) *CaseResult {
 	baseVerdict := verdict(base)
 	if base.err == nil {
 		cr.Probes["accepted"]++
-		if !refOK {
+		if cfg.Mutated {
+			cr.Probes["mutated_accepted"]++
+		} else if !refOK {
 			cr.observe("decoder accepts a stream the reference grammar rejects")
 		} else {
 			got := dumpForest(fromDoc(base.doc), false)
@@ -888,11 +939,18 @@ func runStructure(t *testing.T, c *Case, cr *CaseResult) *CaseResult {
 			}
 			cr.Probes["compared_with_reference"]++
 		}
-		// normal form: decode(encode(doc)) is the same tree and re-encodes to the same bytes
+		// normal form: decode(encode(doc)) is the same tree and re-encodes to
+		// the same bytes (not judged for mutated streams: a mutation can put a
+		// continuation line after a record line, which is outside the grammar)
 		s1 := base.doc.String()
+		if cfg.Mutated {
+			s1 = ""
+		}
 		d2 := decodeWith([]byte(s1), wholePlan(), ml, ii, st)
 		cr.Runs++
-		if d2.err != nil || d2.panicVal != "" {
+		if cfg.Mutated {
+			// nothing to compare
+		} else if d2.err != nil || d2.panicVal != "" {
 			// whether encoder output is always accepted is C01's subject; here
 			// only note it
 			cr.observe("re-encoded text is not accepted again: " + clip(fmt.Sprint(d2.err, d2.panicVal), 100))
@@ -1002,7 +1060,23 @@ func genTotalityCase(prop, tier string, r *rand.Rand) *Case {
 				b[i], b[j] = b[j], b[i]
 			}
 		}
-	case 4: // first line at a level > 0
+	case 4: // a chain down to the deepest levels (and past them)
+		if r.IntN(2) == 0 {
+			n := pick(r, []int{12, 98, 99, 100, 101, 105})
+			b = append(b, "0 HEAD\n"...)
+			for l := 1; l <= n; l++ {
+				b = append(b, fmt.Sprintf("%d NOTE l%d\n", l, l)...)
+			}
+			if r.IntN(2) == 0 {
+				// over-indented lines stack up one level each with AllowInvalidIndents
+				b = []byte("0 HEAD\n")
+				for l := 0; l < n; l++ {
+					b = append(b, fmt.Sprintf("%d NOTE x\n", 2+l+r.IntN(3))...)
+				}
+			}
+			break
+		}
+		// first line at a level > 0
 		b = []byte(fmt.Sprintf("%d NAME x\n", 1+r.IntN(9)))
 		if r.IntN(2) == 0 {
 			b = append(b, "0 HEAD\n2 NOTE y\n"...)
